@@ -301,7 +301,7 @@ pub fn run(ctx: Ctx) -> i32 {
         }
         return ctx.finish(json!({"states":1,"transitions":1,"traces_validated_against_impl":1,"samples":[case]}), &[], false);
     }
-    let (n, nchunk, nlex) = if ctx.quick() { (7, 6, 6) } else { (9, 7, 7) };
+    let (n, nchunk, nlex) = if ctx.quick() { (7, 6, 6) } else { (12, 8, 8) };
     let strings = all_strings(n);
     let stats = strings
         .par_iter()
